@@ -139,13 +139,14 @@ class AnonBits:
 
 class Field:
     def __init__(self, name, start=None, size=None, type=None, cond=None, byte_order=None,
-                 requires=None, skip=False, expr=None):
+                 requires=None, skip=False, expr=None, emit=False):
         self.name = name
         self.start, self.size, self.type = start, size, type
         self.cond = cond
         self.byte_order = byte_order  # "LittleEndian" | "BigEndian" | None (default or Null)
         self.requires = requires
         self.skip = skip
+        self.emit = emit  # explicit [text_output: "Emit"] (same meaning as no attribute)
         self.expr = expr  # virtual field when not None
 
     @property
@@ -154,8 +155,9 @@ class Field:
 
 
 class StructDef:
-    def __init__(self, name, kind="struct", params=(), fields=(), requires=None):
+    def __init__(self, name, kind="struct", params=(), fields=(), requires=None, default_byte_order=None):
         self.name, self.kind = name, kind  # kind: struct | bits
+        self.default_byte_order = default_byte_order  # [$default byte_order: ...] inside the struct
         self.params = list(params)  # [(name, 'UInt'|'Int'|enum name, bits)]
         self.fields = list(fields)
         self.requires = requires
@@ -235,6 +237,8 @@ def _render_field(f, indent, out):
         out.append(f"{sub}[requires: {render_top(f.requires)}]")
     if f.skip:
         out.append(f'{sub}[text_output: "Skip"]')
+    elif getattr(f, "emit", False):
+        out.append(f'{sub}[text_output: "Emit"]')
 
 
 def render_module(m):
@@ -258,6 +262,8 @@ def render_module(m):
                 ps.append(f"{n}: {k}:{b}" if k in ("UInt", "Int") else f"{n}: {k}")
             params = "(" + ", ".join(ps) + ")"
         out.append(f"{s.kind} {s.name}{params}:")
+        if getattr(s, "default_byte_order", None):
+            out.append(f'  [$default byte_order: "{s.default_byte_order}"]')
         if s.requires is not None:
             out.append(f"  [requires: {render_top(s.requires)}]")
         for f in s.fields:
